@@ -160,7 +160,11 @@ fn seg2(a: &P2, b: &P2, t: &Iso2D, q: &P2) -> Verdict {
     let ts = s.transform_by(&iso);
     ensure!((ts.a - iso * a).norm() <= tol && (ts.b - iso * b).norm() <= tol, "C03/seg2/ends", "segment ends not moved by T");
     let tq = iso * q;
-    ensure!((ts.projected_parameter(&tq) - s.projected_parameter(&q)).abs() <= 1e-9 * (1.0 + s.projected_parameter(&q).abs()) * (1.0 + tol / (a - b).norm_squared().min(1.0) * 1e9 * 1e-9), "C03/seg2/projected_parameter", "projected parameter changed: {:e} vs {:e}", ts.projected_parameter(&tq), s.projected_parameter(&q));
+    // conditioning: a coordinate error eps in the moved end points turns the direction by eps / L and the parameter of
+    // a point at distance D by (D / L) * (eps / L)
+    let len = (a - b).norm();
+    let ptol = 1e-9 * (1.0 + s.projected_parameter(&q).abs()) + 8.0 * tol * ((q - a).norm() + len) / (len * len);
+    ensure!((ts.projected_parameter(&tq) - s.projected_parameter(&q)).abs() <= ptol, "C03/seg2/projected_parameter", "projected parameter changed: {:e} vs {:e}", ts.projected_parameter(&tq), s.projected_parameter(&q));
     ensure!((ts.projected_point(&tq) - iso * s.projected_point(&q)).norm() <= tol * (1.0 + (q - a).norm() / (a - b).norm()), "C03/seg2/projected_point", "projected point does not commute");
     ensure!(((ts.a - ts.b).norm() - (a - b).norm()).abs() <= tol, "C03/seg2/length", "length changed");
     if t.is_generic() {
@@ -245,7 +249,25 @@ fn curve2(spec: &Curve2Spec, t: &Iso2D, t2: &Iso2D, qs: &[P2], ls: &[f64]) -> Ve
             return Verdict::fail("C03/curve2/at_length_none", format!("at_length({l:e}) returned None"));
         };
         ensure!((iso * s0.point() - s1.point()).norm() <= tol * 4.0, "C03/curve2/station_point", "station point does not commute with T");
-        if !s0.direction().x.is_nan() {
+        // at a vertex where the curve doubles back on itself the averaged direction is 0/0: NaN or rounding noise
+        let cusp = {
+            let v = c.points();
+            let n = v.len();
+            let k = if s0.fraction() == 0.0 { Some(s0.index()) } else if s0.fraction() == 1.0 { Some(s0.index() + 1) } else { None };
+            match k {
+                Some(k) => {
+                    let prev = if k > 0 { Some(v[k] - v[k - 1]) } else if c.is_closed() && n >= 3 { Some(v[n - 1] - v[n - 2]) } else { None };
+                    let next = if k + 1 < n { Some(v[k + 1] - v[k]) } else if c.is_closed() && n >= 3 { Some(v[1] - v[0]) } else { None };
+                    match (prev, next) {
+                        (Some(a), Some(b)) => (a.normalize() + b.normalize()).norm() < 1e-4,
+                        _ => false,
+                    }
+                }
+                None => false,
+            }
+        };
+        cx.label_if(cusp, "station_at_cusp");
+        if !s0.direction().x.is_nan() && !cusp {
             ensure!((iso.rotation * s0.direction().into_inner() - s1.direction().into_inner()).norm() <= 1e-7, "C03/curve2/station_direction", "station direction is not rotated only");
         }
     }
@@ -307,7 +329,17 @@ fn curve3(spec: &Curve3Spec, t: &Iso3D, t2: &Iso3D, qs: &[P3], ls: &[f64]) -> Ve
             return Verdict::fail("C03/curve3/at_length_none", "at_length returned None".to_string());
         };
         ensure!((iso * s0.point() - s1.point()).norm() <= tol * 4.0, "C03/curve3/station_point", "station point does not commute with T");
-        ensure!((iso.rotation * s0.direction().into_inner() - s1.direction().into_inner()).norm() <= 1e-7, "C03/curve3/station_direction", "station direction is not rotated only");
+        let cusp = {
+            let v = c.points();
+            let n = v.len();
+            let k = if s0.fraction() == 0.0 { Some(s0.index()) } else if s0.fraction() == 1.0 { Some(s0.index() + 1) } else { None };
+            match k {
+                Some(k) if k > 0 && k + 1 < n => ((v[k] - v[k - 1]).normalize() + (v[k + 1] - v[k]).normalize()).norm() < 1e-4,
+                _ => false,
+            }
+        };
+        cx.label_if(cusp, "station_at_cusp");
+        ensure!(cusp || s0.direction().x.is_nan() || (iso.rotation * s0.direction().into_inner() - s1.direction().into_inner()).norm() <= 1e-7, "C03/curve3/station_direction", "station direction is not rotated only");
     }
     let back = tc.transformed_by(&iso.inverse());
     ensure!(back.count() == c.count(), "C03/curve3/inverse", "T^-1 T changed the count");
